@@ -536,6 +536,61 @@ def saturated_body(c):
     return ok(nontrivial=True, key=json.dumps([fam, lo, list(shape)]), labels=["saturated", "family=" + fam], sample=sample)
 
 
+def fixed_point_body(c):
+    """autograd.misc.fixed_points.fixed_point (a primitive with an implicit-function VJP that itself calls fixed_point): derivatives of
+    orders 1-3 of w . x*(a) for the contraction x = a M x + tanh(b a) against the closed form x* = (I - a M)^-1 tanh(b a) differentiated
+    by Richardson-extrapolated central differences of the closed form."""
+    import autograd
+    import autograd.numpy as anp
+    from autograd.misc.fixed_points import fixed_point
+
+    n = c.int(2, 3)
+    vseed = c.seed()
+    (M0, b, w), _ = values.generic(vseed, [(n, n), (n,), (n,)], -1.0, 1.0)
+    M = 0.4 * M0 / max(1.0, float(onp.max(onp.abs(onp.linalg.eigvals(M0)))))
+    a0 = c.choice([0.5, 0.8, 1.1])
+    order = c.int(1, 3)
+    form = c.int(0, 1)  # the parameter enters the map linearly / also through a second factor (a * a)
+    sample = {"n": n, "a": a0, "order": order, "form": form, "vseed": vseed}
+
+    def closed(a):
+        A = a * M if form == 0 else a * M + 0.1 * a * a * M.T
+        return float(w @ onp.linalg.solve(onp.eye(n) - A, onp.tanh(b * a)))
+
+    def step(a):
+        if form == 0:
+            return lambda x: a * anp.dot(M, x) + anp.tanh(b * a)
+        return lambda x: a * anp.dot(M, x) + 0.1 * a * a * anp.dot(M.T, x) + anp.tanh(b * a)
+
+    dist = lambda x, y: float(onp.max(onp.abs(onp.asarray(autograd.tracer.getval(x)) - onp.asarray(autograd.tracer.getval(y)))))
+    phi = lambda a: anp.dot(w, fixed_point(step, a, onp.zeros(n), dist, 1e-14))
+
+    def num(f, x, k):
+        if k == 0:
+            return f(x)
+        h = 2e-2 if k == 1 else 4e-2
+        d = lambda hh: (num(f, x + hh, k - 1) - num(f, x - hh, k - 1)) / (2 * hh)
+        return (4 * d(h / 2) - d(h)) / 3
+
+    want = num(closed, a0, order)
+    g = phi
+    try:
+        for _ in range(order):
+            g = autograd.grad(g)
+        got = float(g(a0))
+    except Exception as e:
+        from ..case import describe_exc, from_autograd
+
+        if not from_autograd(e):
+            raise
+        return fail("unexpected_exception", describe_exc(e), "C07|fixed_point|exception", sample=sample)
+    tol = {1: 1e-7, 2: 1e-5, 3: 2e-3}[order] * max(1.0, abs(want))
+    if not abs(got - want) <= tol:
+        return fail("wrong_value", f"order-{order} derivative through fixed_point: autograd {got!r}, closed form {want!r}", f"C07|fixed_point|order{order}", sample=sample)
+    c.features.update(order=order, form=form)
+    return ok(nontrivial=order >= 2, key=json.dumps([n, a0, order, form]), labels=["fixed_point", f"order={order}"], sample=sample)
+
+
 def tests():
     out = []
     for name, t in sorted(TEMPLATES.items()):
@@ -546,6 +601,7 @@ def tests():
     out.append(Test("mixed_partials", mixed_body, quick=400, thorough=3000, shard_size=100))
     out.append(Test("zero_entries", zero_entries_body, quick=1500, thorough=10000, shard_size=150))
     out.append(Test("saturated", saturated_body, quick=1200, thorough=8000, shard_size=150))
+    out.append(Test("fixed_point", fixed_point_body, quick=120, thorough=600, shard_size=20))
     out.append(Test("order3", partial(high_order_body, 3), quick=300, thorough=5000, shard_size=100))
     out.append(Test("order4", partial(high_order_body, 4), quick=150, thorough=3000, shard_size=60))
     return out
